@@ -76,6 +76,7 @@ const (
 	cxLive
 	cxCanceled
 	cxDeadline
+	cxEndsInReq // live when the call is made; cancelled by the time the request returns
 )
 
 const (
@@ -83,14 +84,98 @@ const (
 	oBad
 	oAccErr
 	oPanic
+	// value outcomes: what the request returns (or panics with) is a value some shortcut could
+	// single out. Each error value comes twice: not accepted / accepted by the caller's predicate.
+	oSentinel       // breaker.ErrServiceUnavailable itself (forwarded from a nested / downstream breaker)
+	oSentinelAcc    //   ... and the caller's predicate accepts it
+	oWrapped        // fmt.Errorf("...: %w", ErrServiceUnavailable)
+	oWrappedAcc     //
+	oIsMatch        // an error of a foreign type whose Is() matches ErrServiceUnavailable
+	oIsMatchAcc     //
+	oSameText       // a different error with the sentinel's text
+	oSameTextAcc    //
+	oCtxCanceled    // context.Canceled returned by the request although the call's context is live
+	oCtxCanceledAcc //
+	oCtxDeadline    // context.DeadlineExceeded, ditto
+	oCtxDeadlineAcc //
+	oTypedNil       // a nil pointer of an error type: a non-nil error
+	oTypedNilAcc    //
+	oPanicSentinel  // panic(breaker.ErrServiceUnavailable)
+	nOutcomes
 )
 
-var outcomeNames = [...]string{"ok", "unacceptable-error", "acceptable-error", "panic"}
+// what the fallback answers IF it is run (part of the call's script; whether it runs is the
+// breaker's business). The statement: a rejected call "runs the fallback exactly once" and the
+// result of the call is the fallback's.
+const (
+	fbOwn     = iota // an error of its own
+	fbNil            // swallows the rejection
+	fbArg            // hands back the error it was given
+	fbWrapArg        // wraps the error it was given
+)
+
+// nilErr: its nil pointer is a perfectly usable error value.
+type nilErr struct{}
+
+func (e *nilErr) Error() string { return "c01: typed nil error" }
+
+// isErr: matches the breaker's sentinel through Is only (no Unwrap, different text).
+type isErr struct{}
+
+func (e *isErr) Error() string        { return "c01: downstream unavailable" }
+func (e *isErr) Is(target error) bool { return target == breaker.ErrServiceUnavailable }
+
+type outDef struct {
+	name   string
+	val    error // what the request returns
+	panics bool
+	pval   any
+	acc    bool // the caller's predicate (DoWith*Acceptable*) / the caller itself (Allow) accepts val
+	value  bool // member of the value family (look-ahead depth bound valueDepth)
+	fb     int  // the fallback's answer, if it is run
+}
+
+var (
+	errWrapped  = fmt.Errorf("c01 downstream: %w", breaker.ErrServiceUnavailable)
+	errIsMatch  = error(&isErr{})
+	errSameText = errors.New(breaker.ErrServiceUnavailable.Error())
+	errTypedNil = error((*nilErr)(nil))
+)
+
+var outcomes = [nOutcomes]outDef{
+	oOK:             {name: "ok"},
+	oBad:            {name: "unacceptable-error", val: errBad},
+	oAccErr:         {name: "acceptable-error", val: errAcc, acc: true},
+	oPanic:          {name: "panic", panics: true, pval: panicVal},
+	oSentinel:       {name: "returns-ErrServiceUnavailable", val: breaker.ErrServiceUnavailable, value: true, fb: fbNil},
+	oSentinelAcc:    {name: "returns-ErrServiceUnavailable/accepted", val: breaker.ErrServiceUnavailable, acc: true, value: true, fb: fbArg},
+	oWrapped:        {name: "returns-wrapped-ErrServiceUnavailable", val: errWrapped, value: true, fb: fbArg},
+	oWrappedAcc:     {name: "returns-wrapped-ErrServiceUnavailable/accepted", val: errWrapped, acc: true, value: true, fb: fbNil},
+	oIsMatch:        {name: "returns-error-that-Is-ErrServiceUnavailable", val: errIsMatch, value: true, fb: fbWrapArg},
+	oIsMatchAcc:     {name: "returns-error-that-Is-ErrServiceUnavailable/accepted", val: errIsMatch, acc: true, value: true, fb: fbOwn},
+	oSameText:       {name: "returns-error-with-sentinel-text", val: errSameText, value: true, fb: fbOwn},
+	oSameTextAcc:    {name: "returns-error-with-sentinel-text/accepted", val: errSameText, acc: true, value: true, fb: fbWrapArg},
+	oCtxCanceled:    {name: "returns-context.Canceled", val: context.Canceled, value: true, fb: fbNil},
+	oCtxCanceledAcc: {name: "returns-context.Canceled/accepted", val: context.Canceled, acc: true, value: true, fb: fbArg},
+	oCtxDeadline:    {name: "returns-context.DeadlineExceeded", val: context.DeadlineExceeded, value: true, fb: fbArg},
+	oCtxDeadlineAcc: {name: "returns-context.DeadlineExceeded/accepted", val: context.DeadlineExceeded, acc: true, value: true, fb: fbNil},
+	oTypedNil:       {name: "returns-typed-nil-error", val: errTypedNil, value: true, fb: fbWrapArg},
+	oTypedNilAcc:    {name: "returns-typed-nil-error/accepted", val: errTypedNil, acc: true, value: true, fb: fbOwn},
+	oPanicSentinel:  {name: "panics-with-ErrServiceUnavailable", panics: true, pval: breaker.ErrServiceUnavailable, value: true, fb: fbArg},
+}
+
+var outcomeNames = func() (n [nOutcomes]string) {
+	for i, d := range outcomes {
+		n[i] = d.name
+	}
+	return
+}()
 
 type Entry struct {
 	Base   int  `json:"base"`
 	Ctx    int  `json:"ctx"`
 	ByName bool `json:"byname,omitempty"`
+	NilFb  bool `json:"nilfb,omitempty"` // fallback forms handed a nil fallback ("the fallback (if any)")
 }
 
 func (e Entry) String() string {
@@ -105,6 +190,11 @@ func (e Entry) String() string {
 		n += "[canceled]"
 	case cxDeadline:
 		n += "[deadline-exceeded]"
+	case cxEndsInReq:
+		n += "[cancelled-during-request]"
+	}
+	if e.NilFb {
+		n += "[nil-fallback]"
 	}
 	if e.ByName {
 		return "breaker." + n + "(name)"
@@ -112,11 +202,12 @@ func (e Entry) String() string {
 	return "b." + n
 }
 
-func (e Entry) hasFallback() bool   { return e.Base == bDoFb || e.Base == bDoFbAcc }
+func (e Entry) hasFallback() bool   { return (e.Base == bDoFb || e.Base == bDoFbAcc) && !e.NilFb }
 func (e Entry) hasAcceptable() bool { return e.Base == bDoAcc || e.Base == bDoFbAcc }
 func (e Entry) done() bool          { return e.Ctx == cxCanceled || e.Ctx == cxDeadline }
 
-// base key of an entry for violation classes (ctx/byname stripped unless they are the cause).
+// base key of an entry for violation classes (the context's state and the nil-fallback form are in
+// the message, not in the key).
 func (e Entry) short() string {
 	n := [...]string{"Do", "DoWithAcceptable", "DoWithFallback", "DoWithFallbackAcceptable", "Allow"}[e.Base]
 	if e.Ctx != cxNone {
@@ -129,8 +220,10 @@ func (e Entry) short() string {
 }
 
 var (
-	liveEntries []Entry // entries whose call reaches the breaker
-	doneEntries []Entry // entries called with a context that is already done
+	liveEntries  []Entry // entries whose call reaches the breaker
+	doneEntries  []Entry // entries called with a context that is already done
+	extraEntries []Entry // further forms that reach the breaker (look-ahead depth bound valueDepth):
+	//                      context cancelled while the request runs, nil fallback
 )
 
 func init() {
@@ -140,10 +233,15 @@ func init() {
 				continue // no package-level Allow
 			}
 			for _, cx := range []int{cxNone, cxLive} {
-				liveEntries = append(liveEntries, Entry{base, cx, byName})
+				liveEntries = append(liveEntries, Entry{Base: base, Ctx: cx, ByName: byName})
 			}
 			for _, cx := range []int{cxCanceled, cxDeadline} {
-				doneEntries = append(doneEntries, Entry{base, cx, byName})
+				doneEntries = append(doneEntries, Entry{Base: base, Ctx: cx, ByName: byName})
+			}
+			extraEntries = append(extraEntries, Entry{Base: base, Ctx: cxEndsInReq, ByName: byName})
+			if base == bDoFb || base == bDoFbAcc {
+				extraEntries = append(extraEntries, Entry{Base: base, Ctx: cxNone, ByName: byName, NilFb: true},
+					Entry{Base: base, Ctx: cxLive, ByName: byName, NilFb: true})
 			}
 		}
 	}
@@ -159,16 +257,35 @@ func outcomesOf(e Entry) []int {
 	return []int{oOK, oBad, oAccErr, oPanic}
 }
 
-// expected kind of an ADMITTED call: decided by the acceptability predicate in force.
-func wantKind(e Entry, out int) Kind {
-	switch out {
-	case oOK:
-		return KS
-	case oAccErr:
-		if e.hasAcceptable() || e.Base == bAllow {
-			return KS
+// valueOutcomesOf: the value family for an entry. Entries without a caller-supplied predicate
+// cannot tell the accepted from the not-accepted variant (the predicate is err == nil): one of each
+// pair is enough there.
+func valueOutcomesOf(e Entry) []int {
+	var outs []int
+	for out := oSentinel; out < nOutcomes; out++ {
+		d := outcomes[out]
+		if d.panics && e.Base == bAllow {
+			continue
 		}
-		return KF // default predicate: err == nil
+		if d.acc && !(e.hasAcceptable() || e.Base == bAllow) {
+			continue
+		}
+		outs = append(outs, out)
+	}
+	return outs
+}
+
+// expected kind of an ADMITTED call: decided by the acceptability predicate in force
+// (err == nil for Do / DoWithFallback; the caller's predicate; the caller's verdict for Allow).
+func wantKind(e Entry, out int) Kind {
+	d := outcomes[out]
+	switch {
+	case d.panics:
+		return KF
+	case d.val == nil:
+		return KS
+	case d.acc && (e.hasAcceptable() || e.Base == bAllow):
+		return KS
 	}
 	return KF
 }
@@ -180,12 +297,23 @@ var (
 	panicVal    = &struct{ s string }{"c01 panic value"}
 )
 
-func acceptablePred(err error) bool { return err == nil || err == errAcc }
+func fallbackAnswer(kind int, arg error) error {
+	switch kind {
+	case fbNil:
+		return nil
+	case fbArg:
+		return arg
+	case fbWrapArg:
+		return fmt.Errorf("c01 fallback: %w", arg)
+	}
+	return errFallback
+}
 
 // obs is what one call showed from the outside.
 type obs struct {
 	reqRuns, fbRuns int
 	fbArg           error
+	fbRet           error // what the fallback answered (last run)
 	err             error
 	panicked        bool
 	pval            any
@@ -198,7 +326,7 @@ type ctxMaker func(kind int) (context.Context, func())
 // real contexts (pass-through mode)
 func realCtx(kind int) (context.Context, func()) {
 	switch kind {
-	case cxLive:
+	case cxLive, cxEndsInReq:
 		return context.WithCancel(context.Background())
 	case cxCanceled:
 		c, cancel := context.WithCancel(context.Background())
@@ -213,7 +341,7 @@ func realCtx(kind int) (context.Context, func()) {
 // virtual contexts (inside a vsched execution)
 func virtCtx(kind int) (context.Context, func()) {
 	switch kind {
-	case cxLive:
+	case cxLive, cxEndsInReq:
 		return vsched.CtxWithCancel(context.Background())
 	case cxCanceled, cxDeadline:
 		c, cancel := vsched.CtxWithCancel(context.Background())
@@ -231,25 +359,33 @@ func doCall(b breaker.Breaker, name string, e Entry, out int, mk ctxMaker, inReq
 	if ctx != nil {
 		o.ctxErr = ctx.Err()
 	}
+	def := outcomes[out]
 	req := func() error {
 		o.reqRuns++
 		if inReq != nil {
 			inReq()
 		}
-		switch out {
-		case oBad:
-			return errBad
-		case oAccErr:
-			return errAcc
-		case oPanic:
-			panic(panicVal)
+		if e.Ctx == cxEndsInReq {
+			cancel() // the caller's context ends while the request is running
 		}
-		return nil
+		if def.panics {
+			panic(def.pval)
+		}
+		return def.val
+	}
+	// the caller's predicate: nil, the fixed acceptable error, and this call's value if the script
+	// says the caller accepts it
+	acceptablePred := func(err error) bool {
+		return err == nil || err == errAcc || (def.acc && err == def.val)
 	}
 	fb := func(err error) error {
 		o.fbRuns++
 		o.fbArg = err
-		return errFallback
+		o.fbRet = fallbackAnswer(def.fb, err)
+		return o.fbRet
+	}
+	if e.NilFb {
+		fb = nil
 	}
 	defer func() {
 		if p := recover(); p != nil {
@@ -377,11 +513,11 @@ func judge(e Entry, out int, o obs) (verdict, class, msg string) {
 		if o.fbRuns != 0 {
 			return verdict, "fallback-run-on-admitted:" + e.short(), fmt.Sprintf("%v ran the request and also the fallback (%d times)", e, o.fbRuns)
 		}
-		if out == oPanic {
+		if outcomes[out].panics {
 			if !o.panicked {
 				return verdict, "panic-swallowed:" + e.short(), fmt.Sprintf("%v: the request panicked but the call returned %v", e, o.err)
 			}
-			if o.pval != any(panicVal) {
+			if o.pval != outcomes[out].pval {
 				return verdict, "panic-changed:" + e.short(), fmt.Sprintf("%v: re-raised panic value %v is not the request's", e, o.pval)
 			}
 			return verdict, "", ""
@@ -389,7 +525,7 @@ func judge(e Entry, out int, o obs) (verdict, class, msg string) {
 		if o.panicked {
 			return verdict, "spurious-panic:" + e.short(), fmt.Sprintf("%v panicked: %v", e, o.pval)
 		}
-		want := map[int]error{oOK: nil, oBad: errBad, oAccErr: errAcc}[out]
+		want := outcomes[out].val
 		if o.err != want {
 			return verdict, "error-changed:" + e.short(), fmt.Sprintf("%v: request returned %v, call returned %v", e, want, o.err)
 		}
@@ -410,8 +546,8 @@ func judge(e Entry, out int, o obs) (verdict, class, msg string) {
 		if !errors.Is(o.fbArg, breaker.ErrServiceUnavailable) {
 			return verdict, "fallback-wrong-arg:" + e.short(), fmt.Sprintf("%v: fallback got %v, want ErrServiceUnavailable", e, o.fbArg)
 		}
-		if o.err != errFallback {
-			return verdict, "fallback-result-dropped:" + e.short(), fmt.Sprintf("%v: fallback returned %v, call returned %v", e, errFallback, o.err)
+		if o.err != o.fbRet {
+			return verdict, "fallback-result-dropped:" + e.short(), fmt.Sprintf("%v: fallback returned %v, call returned %v", e, o.fbRet, o.err)
 		}
 		return verdict, "", ""
 	}
